@@ -55,6 +55,9 @@ pub struct Cfg {
     pub fresh_wakers: bool,
     /// The listener creates connections ahead of `accept` and hands them out newest first.
     pub listener_prepares: bool,
+    /// The environment moves this thread's clock forward by tape-chosen amounts (milliseconds to
+    /// hours) between polls (`clock.rs`).
+    pub clock_jumps: bool,
 }
 
 impl Cfg {
@@ -73,6 +76,7 @@ impl Cfg {
             log: 0,
             fresh_wakers: false,
             listener_prepares: false,
+            clock_jumps: false,
         }
     }
 
@@ -100,6 +104,7 @@ impl Cfg {
             log: [0, 0, 0, 1, 1, 2, 3, 1][t.draw(8)],
             fresh_wakers: t.draw(3) == 2,
             listener_prepares: t.draw(4) == 3,
+            clock_jumps: t.draw(4) == 3,
         }
     }
 }
